@@ -58,6 +58,16 @@ func repoStatus(root string) string {
 
 // LoadProgram loads module rooted at dir (patterns ./...) with full syntax and builds SSA when wantSSA.
 func LoadProgram(dir string, wantSSA bool, overlay map[string][]byte, extraEnv ...string) (*Program, error) {
+	// normalisation: inline helper functions that no rule names (see inlineprepass.go)
+	modRel := ""
+	if r, err := filepath.Rel(repoRoot, dir); err == nil && r != "." && !strings.HasPrefix(r, "..") {
+		modRel = filepath.ToSlash(r)
+	}
+	if ov, err := inlineHelpers(dir, overlay, modRel); err == nil {
+		overlay = ov
+	} else {
+		fmt.Fprintf(os.Stderr, "INLINE-PREPASS skipped: %v\n", err)
+	}
 	mode := packages.LoadAllSyntax
 	cfg := &packages.Config{Mode: mode, Dir: dir, Env: goEnv(extraEnv...), Overlay: overlay, Tests: false}
 	pkgs, err := packages.Load(cfg, "./...")
@@ -218,7 +228,7 @@ func (p *Program) Pos(pos token.Pos) string {
 	if err != nil || strings.HasPrefix(rel, "..") {
 		rel = ps.Filename
 	}
-	return fmt.Sprintf("%s:%d", rel, ps.Line)
+	return fmt.Sprintf("%s:%d", rel, mapLine(ps.Filename, ps.Line))
 }
 
 // Func resolves "pkg/path.Name" or "pkg/path.(*T).M" / "pkg/path.(T).M" (path relative to module) to its SSA function.
